@@ -24,6 +24,12 @@ OPK = ["INIT", "NO_OP", "FROM", "WHERE", "GROUP_BY", "HAVING", "SELECT", "ORDER_
 SHORT = {"avg": "ShAvg", "mean": "ShMean", "max": "ShMax", "min": "ShMin", "sum": "ShSum"}
 
 
+def _norm(f):
+    """the function without docstrings, annotations, typing.cast, `pass` and logging statements (vlib.py2v.normalize_func);
+    local names are kept, the matchers below refer to them"""
+    return py2v.normalize_func(f, rename_locals=False)
+
+
 def _body(f):
     """statements without docstrings and local imports"""
     return [s for s in f.body if not (isinstance(s, ast.Expr) and isinstance(s.value, ast.Constant))
@@ -73,7 +79,7 @@ def _str_cond(n):
 
 
 def naming(gr_tree, gr_src):
-    f = py2v.find_method(gr_tree, "_BaseGroupedData", "_get_function_applied_columns")
+    f = _norm(py2v.find_method(gr_tree, "_BaseGroupedData", "_get_function_applied_columns"))
     if [a.arg for a in f.args.args] != ["self", "func_name", "cols"]:
         raise Untranslatable("_get_function_applied_columns: parameters changed")
     if not _imports_functions_as_F(f):
@@ -139,13 +145,13 @@ def naming(gr_tree, gr_src):
     term = '""%string'
     for p in reversed(parts):
         term = f"(sapp {p} {term})"
-    return {"fmt": term, "canon": canon, "lowers": lowers, "through": through, "hash": py2v.src_hash(f, gr_src),
-            "text": ast.get_source_segment(gr_src, name_e)}
+    return {"fmt": term, "canon": canon, "lowers": lowers, "through": through, "hash": py2v.norm_hash(f, rename_locals=False),
+            "text": ast.unparse(name_e)}
 
 
 def agg_facts(gr_tree, gr_src):
-    f = py2v.find_method(gr_tree, "_BaseGroupedData", "agg")
-    out = {"hash": py2v.src_hash(f, gr_src)}
+    f = _norm(py2v.find_method(gr_tree, "_BaseGroupedData", "agg"))
+    out = {"hash": py2v.norm_hash(f, rename_locals=False)}
     # dict form
     # `columns = (<dict form> if isinstance(exprs[0], dict) else exprs)` or the same as an if/else statement
     t = dict_value = other_value = None
@@ -267,9 +273,9 @@ def agg_facts(gr_tree, gr_src):
         for is_list in (False, True):
             if _cond_eval(test, nonempty, is_list) != ((nonempty and is_list) == sets_in_body):
                 raise Untranslatable("agg: the plain / grouping-sets condition changed")
-    src = ast.get_source_segment(gr_src, f) or ""
-    if "exp.Group(grouping_sets=[exp.GroupingSets(expressions=all_grouping_sets)])" not in src.replace("\n", "") \
-            or 'expression.set("group", group_by)' not in src:
+    src = ast.unparse(f)
+    if "exp.Group(grouping_sets=[exp.GroupingSets(expressions=all_grouping_sets)])" not in src \
+            or "expression.set('group', group_by)" not in src:
         raise Untranslatable("agg: GROUP BY GROUPING SETS construction changed")
     # HAVING COUNT(*) > 0 on the GROUPING SETS block (the repair of C06/cube-on-empty-input-grand-total-row)
     hv = [n for n in ast.walk(f) if isinstance(n, ast.Call) and dotted(n.func) in ("expression.set", "expression.having")
@@ -278,9 +284,9 @@ def agg_facts(gr_tree, gr_src):
     if not hv:
         out["cube_having"] = False
     else:
-        want = ("exp.Having(this=exp.GT(this=exp.Count(this=exp.Star()),expression=exp.Literal.number(0)))")
+        want = "exp.Having(this=exp.GT(this=exp.Count(this=exp.Star()), expression=exp.Literal.number(0)))"
         ok = (len(hv) == 1 and dotted(hv[0].func) == "expression.set" and len(hv[0].args) == 2
-              and (ast.get_source_segment(gr_src, hv[0].args[1]) or "").replace(" ", "").replace("\n", "").replace(",)", ")") == want)
+              and ast.unparse(hv[0].args[1]) == want)
         # it must sit in the grouping-sets branch, next to expression.set("group", group_by)
         sets_suite = br.body if sets_in_body else br.orelse
         in_branch = any(x is hv[0] for y in sets_suite for x in ast.walk(y))
@@ -367,7 +373,7 @@ def gid_guard(f):
 def shortcuts(gr_tree):
     lits = {}
     for m in ("avg", "max", "min", "sum", "mean"):
-        f = py2v.find_method(gr_tree, "_BaseGroupedData", m)
+        f = _norm(py2v.find_method(gr_tree, "_BaseGroupedData", m))
         body = _body(f)
         if len(body) != 1 or not isinstance(body[0], ast.Return) or not isinstance(body[0].value, ast.Call):
             raise Untranslatable(f"GroupedData.{m}: body shape changed")
@@ -395,7 +401,7 @@ def shortcuts(gr_tree):
             cur = lits[cur][1]
         res[m] = lits[cur][1]
     # count
-    f = py2v.find_method(gr_tree, "_BaseGroupedData", "count")
+    f = _norm(py2v.find_method(gr_tree, "_BaseGroupedData", "count"))
     if not _imports_functions_as_F(f):
         raise Untranslatable("GroupedData.count: functions not imported as F")
     body = _body(f)
@@ -465,7 +471,7 @@ def _is_dict_delegation(s) -> bool:
 
 
 def dfagg_shape(df_tree):
-    f = _last_def(df_tree, "agg")
+    f = _norm(_last_def(df_tree, "agg"))
     body = _body(f)
     if not body or not isinstance(body[-1], ast.Return):
         raise Untranslatable("DataFrame.agg: no final return")
@@ -497,7 +503,7 @@ def dfagg_shape(df_tree):
 
 
 def groupby_shape(df_tree):
-    f = _last_def(df_tree, "groupBy")
+    f = _norm(_last_def(df_tree, "groupBy"))
     body = _body(f)
     r = body[-1]
     ok = (isinstance(r, ast.Return) and isinstance(r.value, ast.Call) and dotted(r.value.func) == "self._group_data"
@@ -532,7 +538,7 @@ def idx_expr(n):
 
 
 def cube_loop(df_tree, df_src):
-    f = _last_def(df_tree, "cube")
+    f = _norm(_last_def(df_tree, "cube"))
     body = _body(f)
     if len(body) != 4:
         raise Untranslatable(f"cube: expected 4 statements, found {len(body)}")
@@ -561,14 +567,14 @@ def cube_loop(df_tree, df_src):
            and [dotted(a) for a in s3.value.args] == ["self", "grouping_columns", "self.last_op"])
     if not ok3:
         raise Untranslatable("cube: does not return self._group_data(self, grouping_columns, self.last_op)")
-    return idx, py2v.src_hash(s2, df_src), ast.get_source_segment(df_src, s2.iter)
+    return idx, py2v.norm_hash(f, rename_locals=False), ast.unparse(s2.iter)
 
 
 # ---- session.py / functions.py -------------------------------------------------------------------------
 
 def sanitize_facts(repo):
     tree, src = py2v.load(os.path.join(repo, "sqlframe/base/session.py"))
-    f = py2v.find_method(tree, "_BaseSession", "_sanitize_column_name")
+    f = _norm(py2v.find_method(tree, "_BaseSession", "_sanitize_column_name"))
     body = _body(f)
     ok = (len(body) == 2 and isinstance(body[0], ast.If) and dotted(body[0].test) == "self.SANITIZE_COLUMN_NAMES"
           and not body[0].orelse and isinstance(body[1], ast.Return) and dotted(body[1].value) == "name"
@@ -584,13 +590,15 @@ def sanitize_facts(repo):
             raise Untranslatable("DuckDBSession overrides _sanitize_column_name")
     if not isinstance(flag, bool):
         raise Untranslatable("SANITIZE_COLUMN_NAMES is not a boolean literal")
-    return flag, py2v.src_hash(f, src)
+    return flag, py2v.norm_hash(f, rename_locals=False)
 
 
 def function_classes(repo):
     tree, src = py2v.load(os.path.join(repo, "sqlframe/base/functions.py"))
     defs, aliases = {}, {}
     for st in tree.body:
+        if isinstance(st, ast.FunctionDef) and st.name in ("count", "sum", "avg", "mean", "min", "max", "count_distinct"):
+            st = _norm(st)
         if isinstance(st, ast.FunctionDef) and st.name in ("count", "sum", "avg", "mean", "min", "max"):
             body = _body(st)
             r = body[0] if len(body) == 1 else None
